@@ -37,12 +37,15 @@ ASSUMPTIONS = [
 ]
 MIN_NONTRIVIAL = {'quick': 9000, 'thorough': 200000}
 REQUIRED_MONITORS = ['marker', 'walk-conservation', 'scrub-conservation',
+                     'repeat-parse',
                      'unused-accounting', 'hook:populate_markers',
                      'hook:sub_scrubber', 'hook:segment',
                      'hook:rebuild_sec_within']
 
 MARKERS = ['ZQXJV', 'KWYBG', 'QJZKX', 'VXQZJ', 'NQZXV', 'SQZXV', 'EQZXV',
-           'WQZXV']
+           'WQZXV',
+           # foreign tokens without a single letter
+           '#4471', '(160.00)', '{77349}']
 MODES = ['', '', 'segment', 'sec_within', 'segment,sec_within',
          'sec_colon_required', 'sec_colon_cautious', 'TRS_desc', 'desc_STR',
          'S_desc_TR', 'TR_desc_S', 'copy_all']
@@ -265,6 +268,26 @@ def check_case(case, ctx, rec, pytrs, rgxlib):
                 if why:
                     ctx.violation('unused-block-unreported', case, why,
                                   dedup=mode)
+                # What a first parse reported, a later parse of the same
+                # text (same object, and a second object) reports too.
+                if ctx.evaluations % 3 == 0:
+                    ctx.hit('repeat-parse')
+                    first = (sorted(t.desc for t in d.tracts),
+                             sorted(map(str, d.e_flags)))
+                    d.parse()
+                    d2 = pytrs.PLSSDesc(text, config=mode or None)
+                    for label, obj in (('re-parse of the same object', d),
+                                       ('second object, same text', d2)):
+                        now = (sorted(t.desc for t in obj.tracts),
+                               sorted(map(str, obj.e_flags)))
+                        if now != first:
+                            ctx.violation(
+                                'later-parse-reports-less', case,
+                                f"{label}: descriptions / error flags "
+                                f"{short(repr(now), 300)} differ from the "
+                                f"first parse {short(repr(first), 300)}",
+                                dedup=label)
+                            break
     except CaseTimeout:
         ctx.discard('slow')
 
